@@ -1150,6 +1150,11 @@ func c17Instances(add func(*Instance), thorough bool) {
 		ad(P("op", 19, "g", 2, "w", w, "anb", 3, "ane", 1, "akeys", 7, "alow", 1, "bnb", 2, "bne", 1, "bkeys", 8, "blow", 1, "cnb", 2, "cne", 1, "ckeys", 9, "clow", 1,
 			"xh", 0, "xb", 0, "xm", 0x3F00000001), 0)
 	}
+	// ... and the third member is mutated afterwards (its buckets must not be shared with the result)
+	for _, w := range []int{1, 2} {
+		ad(P("op", 19, "g", 7, "w", w, "anb", 3, "ane", 1, "akeys", 7, "alow", 1, "bnb", 2, "bne", 1, "bkeys", 8, "blow", 1, "cnb", 2, "cne", 1, "ckeys", 9, "clow", 1,
+			"xh", 0, "xb", 0, "xm", 0x3F00000001), 0)
+	}
 	// clone + in-place AndNot cancelling the first bucket and carrying a receiver-only bucket down, then mutate the clone
 	ad(P("op", 21, "anb", 2, "ane", 1, "akeys", 6, "alow", 1, "bnb", 2, "bne", 1, "bkeys", 10, "blow", 1, "xh", 0, "xb", 0, "xm", 0x700000001), 0)
 	ad(P("op", 21, "anb", 3, "ane", 1, "akeys", 6, "alow", 1, "bnb", 3, "bne", 1, "bkeys", 10, "blow", 1, "xh", 0, "xb", 0, "xm", 0x700000001), 1)
